@@ -471,14 +471,19 @@ class BpWorld(object):
             self.boundary(src.name[0])
         return steps
 
-    def send(self, octets, payload=None, expect_error=False):
-        ''' A local application asks the agent to send the bundle encoded in ``octets``. '''
+    def send(self, octets, payload=None, expect_error=False, unfinished_crc=False):
+        ''' A local application asks the agent to send the bundle encoded in ``octets``.
+        unfinished_crc: as an application builds it - CRC types chosen, CRC values not computed yet. '''
         rec, bun = abstract_bundle(octets)
         if bun is not None:
             self.originals[rec['base']] = bp7.payload_of(bun)
         self.emit('Send', b=rec)
         try:
             ctr = BundleContainer(Bundle(octets))
+            if unfinished_crc:
+                for blk in [ctr.bundle.primary] + list(ctr.bundle.blocks):
+                    blk.fields.pop('crc_value', None)
+                    blk._rx_items = None
             self.agent.send_bundle(ctr)
         except Exception as err:
             self.emit('SendError', exc=type(err).__name__, expected=bool(expect_error))
